@@ -57,6 +57,7 @@ pub fn scenarios(prop: &str, tier: Tier) -> Vec<ScenarioDef> {
         "C05" => crate::c05::scenarios(tier),
         "C06" => crate::c06e1::scenarios(tier),
         "C16" => crate::c16::scenarios(tier),
+        "C10" => crate::c10::scenarios(tier),
         _ => Vec::new(),
     }
 }
@@ -68,6 +69,7 @@ pub fn seq_configs(prop: &str, tier: Tier) -> Vec<crate::seqx::Config> {
         "C13" => crate::c13::configs(tier),
         "C05" => crate::c05core::configs(tier == Tier::Thorough),
         "C16" => crate::c16::configs(tier),
+        "C14" => crate::c14seq::configs(tier == Tier::Thorough),
         _ => Vec::new(),
     }
 }
